@@ -61,6 +61,10 @@ func ruleExecuteThenClean(fnNames ...string) ruleFn {
 				var cleans []ssa.CallInstruction
 				for _, ref := range *data.Referrers() {
 					if ci, ok := isCleanCall(ref); ok {
+						if !r.cleanReceiverOK(ci) {
+							r.Bad(rule, name, "scrub set used by Clean", r.P.pos(ci.Pos()), "Clean is called on a ScrubFields that is not the one of the plan the planner made for this operation (a plan assembled on the spot without it, or a value the rule cannot trace to Planner.Plan): the helper fields the planner added are not in it, so nothing is removed and they reach the client")
+							continue
+						}
 						cleans = append(cleans, ci)
 					}
 				}
@@ -127,6 +131,220 @@ func ruleExecuteThenClean(fnNames ...string) ruleFn {
 	}
 }
 
+// cellRoot resolves a captured variable seen from a literal to the Alloc of the function that
+// declares it.
+func cellRoot(cell ssa.Value) *ssa.Alloc {
+	for depth := 0; depth < 6; depth++ {
+		switch x := cell.(type) {
+		case *ssa.Alloc:
+			return x
+		case *ssa.FreeVar:
+			lit := x.Parent()
+			k := -1
+			for i, fv := range lit.FreeVars {
+				if fv == x {
+					k = i
+				}
+			}
+			if k < 0 || lit.Parent() == nil {
+				return nil
+			}
+			var next ssa.Value
+			for _, ins := range allInstrs(lit.Parent()) {
+				if mc, ok := ins.(*ssa.MakeClosure); ok && mc.Fn == ssa.Value(lit) && k < len(mc.Bindings) {
+					next = mc.Bindings[k]
+				}
+			}
+			if next == nil {
+				return nil
+			}
+			cell = next
+		default:
+			return nil
+		}
+	}
+	return nil
+}
+
+// plannerPlan: v is a *planner.QueryPlan that came out of Planner.Plan — directly, through a
+// local or captured variable, a struct field every store to which is such a plan, a parameter
+// every caller fills with one — or a QueryPlan built on the spot whose ScrubFields field is
+// filled from such a plan. The scrub set of any other plan says nothing about the helper
+// fields the planner added to the operation that was executed.
+func (r *Run) plannerPlan(v ssa.Value, depth int) bool {
+	if depth > 6 {
+		return false
+	}
+	v = unwrap(v)
+	all := func(vals []ssa.Value, f func(ssa.Value) bool) bool {
+		if len(vals) == 0 {
+			return false
+		}
+		for _, x := range vals {
+			if !f(x) {
+				return false
+			}
+		}
+		return true
+	}
+	next := func(x ssa.Value) bool { return r.plannerPlan(x, depth+1) }
+	switch x := v.(type) {
+	case *ssa.Extract:
+		c, ok := x.Tuple.(*ssa.Call)
+		if !ok || x.Index != 0 {
+			return false
+		}
+		if c.Call.IsInvoke() {
+			return c.Call.Method.Name() == "Plan" && namedOf(c.Call.Value.Type()) == plannerPkg+".Planner"
+		}
+		return r.plannerPlanCall(c, 0, depth)
+	case *ssa.Call:
+		return r.plannerPlanCall(x, 0, depth)
+	case *ssa.Phi:
+		return all(x.Edges, next)
+	case *ssa.Parameter:
+		var args []ssa.Value
+		fn := x.Parent()
+		k := -1
+		for i, p := range fn.Params {
+			if p == x {
+				k = i
+			}
+		}
+		for _, e := range r.P.CG.In[fn] {
+			if e.Kind == "param" {
+				continue
+			}
+			if e.Kind != "static" || k < 0 || k >= len(e.Site.Common().Args) {
+				return false
+			}
+			args = append(args, e.Site.Common().Args[k])
+		}
+		return all(args, next)
+	case *ssa.Alloc:
+		// &planner.QueryPlan{…, ScrubFields: <a planner plan's set>}
+		if namedOf(x.Type()) != plannerPkg+".QueryPlan" {
+			return false
+		}
+		var vals []ssa.Value
+		for _, ins := range allInstrs(x.Parent()) {
+			if st, ok := ins.(*ssa.Store); ok {
+				if fa, ok := st.Addr.(*ssa.FieldAddr); ok && fa.X == ssa.Value(x) && fieldOf(fa) != nil && fieldOf(fa).Name() == "ScrubFields" {
+					vals = append(vals, st.Val)
+				}
+			}
+		}
+		return all(vals, func(y ssa.Value) bool { return r.plannerScrubSet(y, depth+1) })
+	case *ssa.UnOp:
+		if x.Op != token.MUL {
+			return false
+		}
+		switch a := x.X.(type) {
+		case *ssa.Alloc, *ssa.FreeVar:
+			root := cellRoot(a)
+			if root == nil {
+				return false
+			}
+			var vals []ssa.Value
+			for _, st := range storesTo(root) {
+				vals = append(vals, st.Val)
+			}
+			return all(vals, next)
+		case *ssa.FieldAddr:
+			f := fieldOf(a)
+			if f == nil {
+				return false
+			}
+			var vals []ssa.Value
+			for _, fn := range r.P.Funcs {
+				for _, ins := range allInstrs(fn) {
+					if st, ok := ins.(*ssa.Store); ok {
+						if fb, ok := st.Addr.(*ssa.FieldAddr); ok && fieldOf(fb) == f {
+							vals = append(vals, st.Val)
+						}
+					}
+				}
+			}
+			return all(vals, next)
+		}
+	}
+	return false
+}
+
+func (r *Run) plannerPlanCall(c *ssa.Call, idx, depth int) bool {
+	sc := c.Call.StaticCallee()
+	if sc == nil {
+		return false
+	}
+	f := r.P.declared(sc)
+	if !inModule(f) || f.Blocks == nil {
+		return false
+	}
+	rets := returnsOf(f)
+	if len(rets) == 0 {
+		return false
+	}
+	for _, ret := range rets {
+		vals := retVals(ret)
+		if idx >= len(vals) {
+			return false
+		}
+		if isNilConst(unwrap(vals[idx])) {
+			continue
+		}
+		if !r.plannerPlan(vals[idx], depth+1) {
+			return false
+		}
+	}
+	return true
+}
+
+// plannerScrubSet: v is the ScrubFields of a plan that came out of the planner.
+func (r *Run) plannerScrubSet(v ssa.Value, depth int) bool {
+	if depth > 6 {
+		return false
+	}
+	v = unwrap(v)
+	switch x := v.(type) {
+	case *ssa.Phi:
+		for _, e := range x.Edges {
+			if !r.plannerScrubSet(e, depth+1) {
+				return false
+			}
+		}
+		return len(x.Edges) > 0
+	case *ssa.UnOp:
+		if x.Op != token.MUL {
+			return false
+		}
+		switch a := x.X.(type) {
+		case *ssa.FieldAddr:
+			if f := fieldOf(a); f != nil && f.Name() == "ScrubFields" && namedOf(a.X.Type()) == plannerPkg+".QueryPlan" {
+				return r.plannerPlan(a.X, depth+1)
+			}
+		case *ssa.Alloc, *ssa.FreeVar:
+			root := cellRoot(a)
+			if root == nil {
+				return false
+			}
+			sts := storesTo(root)
+			for _, st := range sts {
+				if !r.plannerScrubSet(st.Val, depth+1) {
+					return false
+				}
+			}
+			return len(sts) > 0
+		}
+	}
+	return false
+}
+
+// cleanReceiverOK: the ScrubFields a Clean call is made on belongs to a plan of the planner.
+func (r *Run) cleanReceiverOK(ci ssa.CallInstruction) bool {
+	args := ci.Common().Args
+	return len(args) >= 1 && r.plannerScrubSet(args[0], 0)
+}
+
 // rulePrepareResponse: subscription events — whatever prepareResponse returns carries scrubbed
 // data: the upstream response itself after Clean(resp.Data), or a new Response whose Data is
 // the result of the per-event executor (scrubbed there, R5.clean on executorFn), the upstream
@@ -155,7 +373,7 @@ func rulePrepareResponse(r *Run) {
 			if !ok || len(ci.Common().Args) < 2 {
 				continue
 			}
-			if isRespData(ci.Common().Args[1]) && instrDominates(ci, at) {
+			if isRespData(ci.Common().Args[1]) && instrDominates(ci, at) && r.cleanReceiverOK(ci) {
 				return true
 			}
 		}
